@@ -200,6 +200,10 @@ func c19Case(c *core.C) {
 		id := c19ID(r)
 		noclobber := r.Intn(3) == 0
 		doc := c19Doc(r, id)
+		if id == "" && r.Intn(2) == 0 {
+			doc.Metadata = nil // no metadata message at all: still "a document without identifier"
+			c.Cover("store-without-metadata")
+		}
 		b, _ := proto.Marshal(doc)
 		before := treeState(outer)
 		args := []string{"storeone", "-dir", store, "-docfile", putFile(b)}
@@ -486,6 +490,9 @@ func c19InProcess(c *core.C, base, outer, store string, dirKind int) {
 		second := useSecond && r.Intn(2) == 0
 		if r.Intn(5) < 3 {
 			doc := c19Doc(r, id)
+			if id == "" && r.Intn(2) == 0 {
+				doc.Metadata = nil
+			}
 			b, _ := proto.Marshal(doc)
 			nc := r.Intn(4) == 0
 			script = append(script, histStep{Op: "store", File: put(b), NoClobber: nc, Second: second})
